@@ -14,6 +14,11 @@ import (
 func selfTest(verifDir string, r *Report) {
 	r.Rule("SELFTEST", "the matchers used by rules whose expected number of matches is zero fire on the positive examples of checker/testdata/fixture", 6)
 	dir := filepath.Join(verifDir, "checker", "testdata", "fixture")
+	if _, err := os.Stat(dir); err != nil { // developer runs with a scratch -verif: fall back to the binary's own tree
+		if exe, err := os.Executable(); err == nil {
+			dir = filepath.Join(filepath.Dir(exe), "..", "checker", "testdata", "fixture")
+		}
+	}
 	cfg := &packages.Config{Mode: packages.LoadAllSyntax, Dir: dir, Env: append(os.Environ(), "GOWORK=off", "GOFLAGS=-mod=mod", "GOPROXY=off")}
 	pkgs, err := packages.Load(cfg, ".")
 	if err != nil || len(pkgs) != 1 || len(pkgs[0].Errors) > 0 {
